@@ -240,6 +240,9 @@ def boot(mode="sym", repo=None):
         raise core.HarnessError(f"pygradflow imported from {f}, not from {repo}")
     logging.getLogger("gradflow").setLevel(logging.ERROR)
     if mode == "sym":
+        from . import snp as _snp
+
+        _snp.float64.aliases = tuple(_snp.float64.aliases) + (symfloat,)
         sm = SymMath()
         for name, mod in list(sys.modules.items()):
             if name.startswith("pygradflow") and mod is not None:
